@@ -217,6 +217,9 @@ uint32_t Ruleset::runOnceImpl(OomdContext& context) {
   if (active_action_chain_state_ != std::nullopt) {
     // resume the action context from when the action chain was fired
     context.setActionContext(active_action_chain_state_->action_context);
+    // the resumed action must be able to reach its ruleset (e.g. to override
+    // post_action_delay) even if no DetectorGroup fires on this tick
+    context.setInvokingRuleset(this);
 
     // clear active_async_plugin_ and save it to a temp
     BasePlugin& target = active_action_chain_state_->active_plugin;
